@@ -2,10 +2,9 @@
   Driver glue (executable only) for the vertical-spacing families of `BFull2/VSpace.lean`, called from the
   `bfull2` loop of `BFull2/Cli.lean`:
 
-    VSP <tab> rule id <tab> style [<tab> hier [<tab> allow_comment]]
+    VSP <tab> rule id <tab> style [<tab> hier]
         hier          = `k=v,k=v,…`: hierarchy `v` of the k-th token that is neither a line break nor a blank_line
                         (only tokens whose hierarchy is not None are listed; empty = all None)
-        allow_comment = `N` (the attribute does not exist; default), `0`, `1`
     reply  `ok <tois>|<viols>|<fixed>|<second>`  or  `raise <Err>`  or  `unknown`
         tois   = start,line,len ; …      (`N` for a `None` region, `a+b` for a pair of regions)
         viols  = line,start,action code,solution ; …     (action code 0 Insert 1 Remove 2 Skip)
@@ -27,9 +26,9 @@ def instOf (t : Tok) (p : Nat) : Bool := Gen.isa t.cls p
 def familyOf : Nat → Family
   | 0 => .below | 1 => .above | _ => .previous
 
-def paramsOf (r : Gen.VSpaceRuleRow) (style : Str) (ac : Option Bool) : Params :=
+def paramsOf (r : Gen.VSpaceRuleRow) (style : Str) : Params :=
   { family := familyOf r.family, cs := r.cs.map clsOf, allow := r.allow, style := style, hier := r.hier,
-    solution := r.solution.toList, allowComment := ac,
+    solution := r.solution.toList,
     crCls := Gen.crCls, blCls := Gen.blankCls, wsCls := Gen.wsCls, commentCls := Gen.commentCls, pragmaCls := Gen.pragmaCls }
 
 def parseInt (s : String) : Int := if s.startsWith "-" then - ((s.drop 1).toString.toNat! : Int) else (s.toNat! : Int)
@@ -95,8 +94,7 @@ def runVSpace (toks : List Tok) (ix : Index) (args : List String) : String :=
       if !r.own || st == sUnlessLibrary then "unknown"
       else
         let hs := parseHier (rest.headD "")
-        let ac : Option Bool := match rest.drop 1 with | "0" :: _ => some false | "1" :: _ => some true | _ => none
-        run toks ix (paramsOf r st ac) (fun k => hs.getD k none)
+        run toks ix (paramsOf r st) (fun k => hs.getD k none)
   | _ => "unknown"
 
 end Vsgm.BFull2.VSpaceCli
